@@ -113,7 +113,7 @@ class Likelihood:
             if self.keep_log:
                 self.by_x[k] = ll
                 self.order.append(k)
-            if self.mode in ("blobs", "blobs2", "blobs3"):
+            if self.mode in ("blobs", "blobs2", "blobs3", "blobsI", "blobsS"):
                 i = self._next
                 self._next += 1
                 if self.keep_log:
@@ -128,6 +128,10 @@ class Likelihood:
         if self.mode == "blobview":
             # the blob is the argument itself (a reference, not a copy): "return logl, x" / "return logl, x[:k]" in user code
             return ll, x
+        if self.mode == "blobsI":
+            return ll, int(i) + 2 ** 53          # an integer label that a detour through float64 would change (blobs_dtype int64)
+        if self.mode == "blobsS":
+            return ll, f"evaluation-{i}"         # a string label (blobs_dtype object)
         if self.mode == "blobs":
             return ll, float(i)
         if self.mode == "blobs2":
